@@ -45,10 +45,28 @@ def make_psds(seed, lead, D, tk, nk):
         elif tk == 'rank2':
             b = A.cnormal(r, (D,))
             Pxx[idx] = np.outer(a, a.conj()) + 0.3 * np.outer(b, b.conj())
+        elif tk == 'real_full':
+            # real symmetric target PSD, handed over with a real dtype (see below)
+            ar = r.standard_normal(D) * np.sqrt(2)
+            steer[idx] = ar
+            Pxx[idx] = A.hpd(seed, D, 50.0, 'c12xr', idx, complex_=False) * 3 + np.outer(ar, ar)
+        elif tk in ('diag_up', 'diag_down'):
+            # exactly diagonal: off-diagonal entries are exact zeros, largest entry last / first
+            dd = (1.0 + np.arange(D)) * (1 + sum(idx))
+            Pxx[idx] = np.diag(dd if tk == 'diag_up' else dd[::-1])
+            steer[idx] = np.eye(D)[D - 1 if tk == 'diag_up' else 0]
+        elif tk == 'axis_rank1':
+            # rank one along one sensor axis that is not the first
+            a = np.zeros(D, complex)
+            a[(1 + sum(idx)) % D if D > 1 else 0] = 1.5 - 0.5j
+            steer[idx] = a
+            Pxx[idx] = np.outer(a, a.conj())
         else:
             Pxx[idx] = A.hpd(seed, D, 50.0, 'c12x', idx) * 3 + np.outer(a, a.conj())
         Pnn[idx] = np.eye(D) * (1 + 0.5 * sum(idx)) if nk == 'identity' else \
             A.hpd(seed, D, cond, 'c12n', idx) * (1 + 0.5 * sum(idx))
+    if tk == 'real_full':
+        Pxx = np.ascontiguousarray(Pxx.real)
     return Pxx, Pnn, steer, cond
 
 
@@ -227,7 +245,7 @@ def subchecks(tier, seed):
         for seed in seeds_:
             for D in (2, 3, 5, 8):
                 for lead in leads:
-                    for tk in ('rank1', 'rank2', 'full'):
+                    for tk in ('rank1', 'rank2', 'full', 'real_full', 'diag_up', 'axis_rank1'):
                         for nk in ('identity', 'cond1e3', 'cond1e6'):
                             for use_eig in (False, True):
                                 for layout in ('c_readonly', 'fortran'):
@@ -239,7 +257,7 @@ def subchecks(tier, seed):
         for seed in seeds_:
             for D in (2, 3, 5, 8):
                 for lead in leads:
-                    for tk in ('rank1', 'rank2', 'full'):
+                    for tk in ('rank1', 'rank2', 'full', 'real_full', 'diag_up', 'diag_down', 'axis_rank1'):
                         for scaling in (None, 'trace', 'eigenvalue'):
                             yield (D, lead, tk, scaling, seed)
     subs.append(Sub('pca', ('D', 'lead', 'target', 'scaling', 'seed'), pca_cases, run_pca))
